@@ -411,6 +411,40 @@ pub fn law_c09_last_day_idempotent(d: Date)
     assert(l2.v() == l.v());
 }
 
+// ---------------------------------------------------------------- C10
+// idempotence and monotonicity of the real truncation functions, from "greatest boundary not later"
+pub fn law_c10_idempotent_monotone(d1: Date, d2: Date)
+{
+    proof {
+        lemma_trunc_year_greatest(d1.v()); lemma_trunc_year_greatest(d2.v());
+        lemma_trunc_month_greatest(d1.v()); lemma_trunc_month_greatest(d2.v());
+        lemma_trunc_quarter_greatest(d1.v()); lemma_trunc_quarter_greatest(d2.v());
+        lemma_trunc_century_greatest(d1.v()); lemma_trunc_century_greatest(d2.v());
+    }
+    let y1 = d1.trunc_year(); let y2 = d2.trunc_year();
+    let m1 = d1.trunc_month(); let m2 = d2.trunc_month();
+    let q1 = d1.trunc_quarter(); let q2 = d2.trunc_quarter();
+    let c1 = d1.trunc_century(); let c2 = d2.trunc_century();
+    assert(y1.is_ok() && m1.is_ok() && q1.is_ok() && c1.is_ok());
+    let y1v = y1.unwrap(); let m1v = m1.unwrap(); let q1v = q1.unwrap(); let c1v = c1.unwrap();
+    assert(y1v.v() <= d1.v() && m1v.v() <= d1.v() && q1v.v() <= d1.v() && c1v.v() <= d1.v());
+    // coarser units never land after finer ones
+    assert(c1v.v() <= y1v.v() && y1v.v() <= q1v.v() && q1v.v() <= m1v.v());
+    proof {
+        lemma_trunc_year_greatest(y1v.v()); lemma_trunc_month_greatest(m1v.v());
+        lemma_trunc_quarter_greatest(q1v.v()); lemma_trunc_century_greatest(c1v.v());
+    }
+    let yy = y1v.trunc_year(); let mm = m1v.trunc_month(); let qq = q1v.trunc_quarter(); let cc = c1v.trunc_century();
+    assert(yy.is_ok() && yy.unwrap().v() == y1v.v());
+    assert(mm.is_ok() && mm.unwrap().v() == m1v.v());
+    assert(qq.is_ok() && qq.unwrap().v() == q1v.v());
+    assert(cc.is_ok() && cc.unwrap().v() == c1v.v());
+    assert(d1.v() <= d2.v() ==> y1v.v() <= y2.unwrap().v());
+    assert(d1.v() <= d2.v() ==> m1v.v() <= m2.unwrap().v());
+    assert(d1.v() <= d2.v() ==> q1v.v() <= q2.unwrap().v());
+    assert(d1.v() <= d2.v() ==> c1v.v() <= c2.unwrap().v());
+}
+
 // ---------------------------------------------------------------- C11
 // the documented midpoint: from year 51 of the century on, the later boundary is chosen
 pub fn law_c11_round_century_midpoint(d: Date)
